@@ -301,6 +301,6 @@ UNITS = [
          doc="atheris (libFuzzer) coverage-guided campaign with the oracle in-target"),
     Unit("boundary", check_boundary, enumerate=enum_boundary, exhaustive=True, shards_quick=8,
          doc="every position x every special character x {insert, substitute, substitute+delete, replace a byte pair} on a valid key/signature/fingerprint"),
-    _cfgunit.unit_under_config(PROPERTY, 'strings', exclude=()),
-    _cfgunit.unit_under_config(PROPERTY, 'entries', exclude=()),
+    _cfgunit.unit_under_config(PROPERTY, 'strings', exclude=(), closed_stdout=True, n_cases=60),
+    _cfgunit.unit_under_config(PROPERTY, 'entries', exclude=(), closed_stdout=True, n_cases=60),
 ]
